@@ -412,6 +412,24 @@ class Interp(ExprMixin, LoopMixin, CallMixin):
             if self_obj is None and cls_obj is None and closure is None and fi.cls is None:
                 # a decorated module-level function: what is called is the result of its decorators
                 return self.call_value(self._decorated(fi, node), args, kwargs, node)
+            eff = self._effective_decorators(fi)
+            if all(k == 'cache' for k, _d in eff):
+                # a memoised method: one result per distinct argument tuple (and receiver), shared by every later call
+                try:
+                    ck = ('lru-m', fi.qualname, id(self_obj) if self_obj is not None else None,
+                          tuple(self.py_key(a) for a in args), tuple(sorted((k, self.py_key(v)) for k, v in kwargs.items())))
+                    hash(ck)
+                except TypeError:
+                    ck = None
+                if ck is not None and all(x is not None for x in ck[3]) and all(v is not None for _k, v in ck[4]):
+                    if ck not in self.modcache:
+                        r = self.call_function(fi, args, kwargs, self_obj=self_obj, node=node, cls_obj=cls_obj, closure=closure, raw=True)
+                        if isinstance(r, (DictV, ListV, ObjV)):
+                            r.tags = frozenset(r.tags) | {'global', 'cached'}
+                        elif isinstance(r, IntV):
+                            r = IntV(r.lin, frozenset(r.tags) | {'cached'})
+                        self.modcache[ck] = r
+                    return self.modcache[ck]
             self.note_unknown(node, f'decorated method or nested function {fi.name}: decorator not applied')
         if not getattr(self, '_starting_generator', False) and _is_generator(fi.node):
             return GenCallV(fi, args, kwargs, self_obj, cls_obj, closure)
